@@ -94,6 +94,11 @@ CHECKS['C18'] = dict(
    note='Partial by nature: no theorem speaks about node or CPython; agreement rests on the two correspondences. rus lines longer than 15 digits and exotic number syntaxes (1e3, ...) are outside the shared domain and not judged.',
    technique='two correspondences (Python <-> Lean model, JS <-> Lean model) on shared request lines + direct JS <-> Python comparison of tables, patterns and scores',
    ref='7/C18')
+CHECKS['C12'] = dict(
+   text='Machine-checked proofs over the Lean transcription of the validation cascade (default precision) on the patterns and code tuples regenerated from codes.py: the dispatch is total and every failure of the model is the caller\'s error class; multi-events: an accepted result is str(p) of the typed integer p <= 9999 and validating it again returns it unchanged (str/int round trip kernel-evaluated for all 10 000 values); field events: an accepted result is a two-decimal rendering within 1.2 x the record; timed events: an accepted time has seconds below 60 whenever minutes or hours are printed and minutes below 60 under hours. The model is exact on texts with at most two decimals (it answers "skip" where the Python rounds through binary floating point) and is compared with the implementation on a grammar of texts; the property itself (error class, well-formedness, speed window, record window, idempotence) is decided on the implementation for event codes drawn from the enumerated language + loose names x texts x gender x precision option x a custom error class.',
+   note='Partial: idempotence and the speed window on the text level are not theorems (C12_statement); five narrowly matched known findings (plain seconds 60-99.99 pinned by the unit tests; three idempotence classes caused by the colon/stop muddle heuristics and the precision option; three-digit metres refused by PAT_PERF). Trusted: Lean kernel; axioms propext, Quot.sound, Classical.choice; tools/gen_regex.py; float formatting outside the two-decimal sub-domain is not modelled.',
+   technique='Lean 4 proof over a transcription with regenerated patterns + grammar-based correspondence and property oracle',
+   ref='7/C12')
 NOT_YET = {}
 def main():
     props = [json.loads(l) for l in open(os.path.join(HERE, 'properties.jsonl'))]
